@@ -448,9 +448,10 @@ func checkCut(cmds []wcmd, k int, dr *donorRun, st *cutStats) []Failure {
 	}
 	if k < len(cmds) && !diverged {
 		fd := dumpStore(m.store())
-		out = append(out, compareDumps(k, "suffix-dump", dr.dumps[len(cmds)], fd, w, true)...)
+		ws := w.withVariants(dr.final.variants)
+		out = append(out, compareDumps(k, "suffix-dump", dr.dumps[len(cmds)], fd, ws, true)...)
 		fq := runQueries(m.store(), uni)
-		out = append(out, compareQueries(k, "suffix-query", dr.queries[len(cmds)], fq, w, true)...)
+		out = append(out, compareQueries(k, "suffix-query", dr.queries[len(cmds)], fq, ws, true)...)
 		if m2 != nil {
 			out = append(out, compareDumps(k, "chained-suffix-dump", fd, dumpStore(m2.store()), w2, true)...)
 			out = append(out, compareQueries(k, "chained-suffix-query", fq, runQueries(m2.store(), uni), w2, true)...)
@@ -687,15 +688,18 @@ func main() {
 	st := newCutStats()
 	mixes := []string{"catalog", "kv", "mesh", "admin", "peering"}
 	shrunkSigs := map[string]int{}
-	for i := -3; i < nw; i++ {
+	for i := -4; i < nw; i++ {
 		if i < 0 {
-			// the fixed histories (see corpusWide, corpusWideGateway, corpusWideSecrets)
+			// the fixed histories (see corpusWide, corpusWideGateway, corpusWideSecrets, corpusWideAudit)
 			cmds := corpusWide()
 			if i == -2 {
 				cmds = corpusWideGateway()
 			}
 			if i == -3 {
 				cmds = corpusWideSecrets()
+			}
+			if i == -4 {
+				cmds = corpusWideAudit()
 			}
 			h := runWide(2003+i, "corpus", cmds, st, false)
 			for _, f := range h.Failures {
